@@ -9,8 +9,9 @@ COROLLARY of C01 (certificate valid) and C06/C08/C11 (the certificate is about t
         penalties: bounded dimension), every convex datafit's real raw_hessian() is >= 0 (2 samples);
   (ii)  datafit-side proximal operators used only by the primal-dual solver: Pinball.prox / SqrtQuadratic.prox are global
         minimisers of 0.5||u - w||^2 + step * F(u), prox_conjugate satisfies Moreau's identity;
-  (iii) FISTA / PDCD_WS, partial correctness (structural, on the real AST): FISTA iterates the prox-gradient map of the same
-        datafit + penalty with step 1 / get_global_lipschitz; a fixed point of that map has score 0 (C08's lemma);
+  (iii) FISTA, partial correctness: the real FISTA._solve executed with interface-only datafit / penalty (contracts/fista.py):
+        it iterates the accelerated prox-gradient map of the same datafit + penalty with step 1 / get_global_lipschitz; a fixed point
+        of that map has score 0 (C08's lemma);
   (iv)  the certificate obligations of C01 for the solvers used by the convex estimators (ProxNewton, and the extrapolation
         site obligations of AndersonCD / GroupBCD) are re-discharged in the same run.
 NOT decided (stated): agreement with sklearn/celer/LP solvers (external code), and that any iterative float algorithm
@@ -144,36 +145,6 @@ def sqrt_quadratic_task(T):
 
 
 add_task('C02', 'sqrt_lasso:SqrtQuadratic.prox', sqrt_quadratic_task)
-
-
-def fista_structure_task(T):
-    """FISTA._solve on the real AST: z <- z - grad/L ; w <- prox(z, 1/L) with L = get_global_lipschitz(_sparse), grad = gradient of the
-    datafit at X @ z ; stop_crit from the penalty's subdiff_distance / prox fixed-point residual of the same penalty"""
-    from pv.struct import load_function
-    fn, tree = load_function(os.path.join(REPO, 'skglm/solvers/fista.py'), 'FISTA._solve')
-    src = ast.unparse(fn).replace(' ', '')
-    need = {
-        'lipschitz=get_global_lipschitz(dense)': 'lipschitz=datafit.get_global_lipschitz(X,y)',
-        'lipschitz=get_global_lipschitz_sparse': 'lipschitz=datafit.get_global_lipschitz_sparse(X.data,X.indptr,X.indices,y)',
-        'step=1/lipschitz': 'step=1/lipschitz',
-        'gradient-step:z-=step*grad': 'z-=step*grad',
-        'grad-at-X@z(dense)': 'grad=datafit.gradient(X,y,X@z)',
-        'grad-at-X@z(sparse)': 'grad=datafit.gradient_sparse(X.data,X.indptr,X.indices,y,X@z)',
-        'prox-step(vector)': 'w=penalty.prox_vec(z,step)',
-        'prox-step(coordinatewise)': 'w=_prox_vec(w,z,penalty,step)',
-        'model-fit-recomputed': 'Xw=X@w',
-        'objective=datafit.value+penalty.value': 'p_obj=datafit.value(y,w,Xw)+penalty.value(w)',
-    }
-    for label, pat in need.items():
-        (T.ok if pat in src else T.failed)(f'fista/{label}', note=f'expected statement `{pat}` in FISTA._solve')
-    # order: gradient step before the prox step, inside the loop
-    loop = [n for n in ast.walk(fn) if isinstance(n, ast.For)][0]
-    lsrc = ast.unparse(loop).replace(' ', '')
-    ok = 0 <= lsrc.find('z-=step*grad') < lsrc.find('penalty.prox_vec(z,step)')
-    (T.ok if ok else T.failed)('fista/gradient-step-precedes-prox-step', note='')
-
-
-add_task('C02', 'solvers:FISTA._solve/structure', fista_structure_task)
 
 
 def solver_sites_task(T, name):
